@@ -265,6 +265,8 @@ class Ops2(Ops):
         if model is not None:
             self.models_used.add(name)
             r = model(self, st, args, ins, fn)
+            if isinstance(r, Redirect):
+                return self.invoke(st, f, r.callee, r.args, dest, ins, advance, mode)
             if r is not NotImplemented:
                 if dest is not None:
                     f.locals[dest] = r
